@@ -139,10 +139,22 @@ func main() {
 			jobs = append(jobs, job{c, k})
 		}
 	}
-	if r.Thorough() && *cfgFilter == "" {
-		for _, c := range qnet.Configs(4, 3, []specqbft.Height{1, 2, 3}) {
-			jobs = append(jobs, job{c, 1})
+	if r.Thorough() {
+		extra := qnet.Configs(4, 3, []specqbft.Height{1, 2, 3})
+		// n=7 (quorum 5, one Byzantine member): k<=1
+		extra = append(extra, qnet.Configs(7, 3, []specqbft.Height{0})...)
+		for _, c := range extra {
+			k := 1
+			if *kOverride >= 0 {
+				k = *kOverride
+			}
+			if *cfgFilter == "" || strings.Contains(c.String(), *cfgFilter) {
+				jobs = append(jobs, job{c, k})
+			}
 		}
+	}
+	if len(jobs) == 0 {
+		ev.Fatal("no configuration matches the filter")
 	}
 	// larger budgets first so the tail is short
 	sort.SliceStable(jobs, func(a, b int) bool { return jobs[a].k > jobs[b].k })
